@@ -17,7 +17,7 @@ PROP = 'C13'
 LEVEL = 'exploration'
 BATCH = 200
 TIERS = {
-    'quick': {'runs': 60000, 'budget': 45},
+    'quick': {'runs': 250000, 'budget': 35},
     'thorough': {'runs': 4_000_000, 'budget': 420},
 }
 RULE = ('seeded runs: payload type (raw / urlencoded / JSON / multipart text field / multipart file part) x total size '
